@@ -61,7 +61,7 @@ class _Break(Exception):
 BUILTINS: dict[str, Callable] = {
     'len': len, 'zip': lambda *a, **k: list(zip(*a)), 'list': list, 'tuple': tuple, 'range': range, 'all': all, 'any': any,
     'enumerate': lambda x: list(enumerate(x)), 'max': max, 'min': min, 'abs': abs, 'bool': bool, 'int': int, 'set': set, 'sorted': sorted,
-    'float': float, 'type': type, 'str': str,
+    'float': float, 'type': type, 'str': str, 'repr': repr, 'frozenset': frozenset, 'id': id, 'divmod': divmod, 'round': round,
 }
 
 
